@@ -274,7 +274,7 @@ def judge(chk, tag, text, res, counters):
                                 'expected': 'every __bareScript* jump target defined exactly once in its scope; every __bareScript* label targeted'})
     for w in res.get('lint') or []:
         mm = LINT_RE.search(w)
-        if mm and mm.group(2).startswith(RES):
+        if mm and (mm.group(2).startswith(RES) or tag.startswith('shape-')):       # (the shape programs are purely structured: no user labels at all)
             chk.oracle_fail.append({'class': 'lint-label-warning', 'gen': tag, 'source': text, 'got': w, 'expected': 'no label warning for a reserved label'})
     if res.get('lint_error'):
         chk.oracle_fail.append({'class': 'lint-raised', 'gen': tag, 'source': text, 'got': res['lint_error']})
